@@ -345,3 +345,10 @@ func imax(a, b int) int {
 func sortInts(a []int, less func(x, y int) bool) {
 	sort.Slice(a, func(i, j int) bool { return less(a[i], a[j]) })
 }
+
+func imin(a, b int) int {
+	if a < b {
+		return a
+	}
+	return b
+}
